@@ -137,6 +137,10 @@ def discharge(queries, jobs=16):
         kw = {"timeout_s": q.timeout_s}
         if q.strategies:
             kw["strategies"] = q.strategies
+        elif q.kind == "property":
+            kw["strategies"] = solve.PROPERTY_STAGES
+        else:
+            kw["strategies"] = solve.OBLIGATION_STAGES
         r = solve.check_text(texts[i], **kw)
         if r["status"] != "unsat" and q.extra and q.expect == "unsat":
             r2 = solve.check_text(texts2[i], **kw)
